@@ -26,7 +26,7 @@ INTS = {
     "add_three": (0, 253, P2 - 1, P2, P3 - 1),
     "add_int": (0, 253, P2, P3 - 1, P3, P4 - 1),
 }
-STRS = ("a", "ab", "€", "Ā", "\x81", "\U0001F600", "\x00", "ÿ", "~", "aÿ~")
+STRS = ("a", "ab", "€", "Ā", "\x81", "\U0001F600", "\x00", "ÿ", "~", "aÿ~", "P}", "O\"!", "SHOP")
 GETTER = {
     "add_byte": "get_byte", "add_char": "get_char", "add_short": "get_short", "add_three": "get_three", "add_int": "get_int",
     "add_fixed_string": "get_fixed_string", "add_fixed_encoded_string": "get_fixed_encoded_string",
@@ -62,39 +62,60 @@ def menus():
     return mid, last
 
 
+def _write(w, op):
+    name = op[0]
+    if name == "add_bytes":
+        w.add_bytes(bytes(op[1]))
+    elif name in ("add_fixed_string", "add_fixed_encoded_string"):
+        getattr(w, name)(op[1], op[2], bool(op[3]))
+    else:
+        getattr(w, name)(op[1])
+
+
+def _read_back(R, data, hist):
+    r = R(data)
+    for i, op in enumerate(hist):
+        name = op[0]
+        if name == "add_bytes":
+            got, exp = bytes(r.get_bytes(len(op[1]))), bytes(op[1])
+        elif name in ("add_fixed_string", "add_fixed_encoded_string"):
+            got, exp = getattr(r, GETTER[name])(op[2], bool(op[3])), img(op[1])
+        elif name in ("add_string", "add_encoded_string"):
+            got, exp = getattr(r, GETTER[name])(), img(op[1])
+        else:
+            got, exp = getattr(r, GETTER[name])(), op[1]
+        if got != exp or type(got) is not type(exp):
+            return f"read #{i} ({GETTER.get(name, 'get_bytes')}) returned {got!r}, written {exp!r} (output {bytes(data).hex()})"
+    if r.remaining != 0 or r.position != len(data):
+        return f"after reading everything remaining={r.remaining} position={r.position} len={len(data)}"
+    return None
+
+
 def run_history(hist):
-    """-> description of the first disagreement, or None."""
+    """-> description of the first disagreement, or None.  The output is also taken after EVERY write (and a reader over
+    it kept alive) while the writer keeps being used: an output taken earlier must still read back what had been
+    written up to that point."""
     W = loader.lib("eolib.data.eo_writer").EoWriter
     R = loader.lib("eolib.data.eo_reader").EoReader
     w = W()
+    taken = []
     try:
-        for op in hist:
-            name = op[0]
-            if name == "add_bytes":
-                w.add_bytes(bytes(op[1]))
-            elif name in ("add_fixed_string", "add_fixed_encoded_string"):
-                getattr(w, name)(op[1], op[2], bool(op[3]))
-            else:
-                getattr(w, name)(op[1])
+        for i, op in enumerate(hist):
+            _write(w, op)
+            if i + 1 < len(hist) and i < 2:
+                out = w.to_bytearray()
+                taken.append((i + 1, out, R(out)))
         data = bytes(w.to_bytearray())
     except Exception as e:  # noqa: BLE001
         return f"write side raised {type(e).__name__}: {e}"
     try:
-        r = R(data)
-        for i, op in enumerate(hist):
-            name = op[0]
-            if name == "add_bytes":
-                got, exp = bytes(r.get_bytes(len(op[1]))), bytes(op[1])
-            elif name in ("add_fixed_string", "add_fixed_encoded_string"):
-                got, exp = getattr(r, GETTER[name])(op[2], bool(op[3])), img(op[1])
-            elif name in ("add_string", "add_encoded_string"):
-                got, exp = getattr(r, GETTER[name])(), img(op[1])
-            else:
-                got, exp = getattr(r, GETTER[name])(), op[1]
-            if got != exp or type(got) is not type(exp):
-                return f"read #{i} ({GETTER.get(name, 'get_bytes')}) returned {got!r}, written {exp!r} (output {data.hex()})"
-        if r.remaining != 0 or r.position != len(data):
-            return f"after reading everything remaining={r.remaining} position={r.position} len={len(data)}"
+        what = _read_back(R, data, hist)
+        if what:
+            return what
+        for n, out, _alive in taken:
+            what = _read_back(R, out, hist[:n])
+            if what:
+                return f"the output taken after {n} write(s) no longer reads back those writes once the writer was used further: {what}"
     except Exception as e:  # noqa: BLE001
         return f"read side raised {type(e).__name__}: {e}"
     return None
